@@ -7,7 +7,8 @@ Seams taken (all pre-existing in the code, no repository hook):
   * NumPy's ndarray.tofile(fileobj) protocol: flush() before, seek(pos) after the C-level write
 Fault kinds: io_error (raise OSError instead of performing the event), kill (os._exit before
 the event), torn (perform a write, keep only a prefix of it, then os._exit), interrupt (raise
-KeyboardInterrupt before the event), corrupt (perform a write, then flip one stored byte).
+KeyboardInterrupt before the event), corrupt (perform a write, then flip one stored byte), short (transfer only a
+prefix of a write / copy / cross-directory move, then raise OSError: the process goes on).
 """
 import builtins
 import errno
@@ -86,7 +87,7 @@ def event(op, path, can_error=True, path2=None):
         SIM.listener(label)
     f = SIM.fault
     if f is not None and f.get("persistent") and f["kind"] == "io_error" and k > f["at"] and SIM.fired is not None and can_error \
-            and op in ("write", "twrite", "tofile", "close", "copy"):
+            and (op in ("write", "twrite", "tofile", "close", "copy") or op == f.get("label", ":").split(":", 1)[0]):
         # the condition persists (disk full, dead mount): every later operation that can fail, fails
         SIM.fired["repeats"] = SIM.fired.get("repeats", 0) + 1
         raise OSError(f.get("errno", errno.ENOSPC), "simulated persistent I/O error", label)
@@ -108,6 +109,15 @@ def event(op, path, can_error=True, path2=None):
                 return "corrupt"
             SIM.fired = {"kind": "corrupt_ignored", "at": k, "label": label}
             return None
+        if kind == "short":
+            # the call transfers only a prefix and then reports ENOSPC/EIO: the process goes on (its handlers run), the
+            # destination holds a partial result
+            if op in ("write", "tofile"):
+                return "short"
+            if op == "copy" or (op == "move" and path2 is not None and os.path.dirname(os.path.abspath(os.fspath(path))) != os.path.dirname(os.path.abspath(os.fspath(path2)))):
+                return "short"
+            SIM.fired = {"kind": "io_error", "at": k, "label": label, "note": "short-on-non-transfer"}
+            raise OSError(f.get("errno", errno.ENOSPC), "simulated I/O error", label)
         if kind == "torn":
             if op in ("write", "tofile"):
                 return "tear"
@@ -203,6 +213,16 @@ class SimFile:
         act = event(op, self._path)
         if act == "tear":
             self._torn_write(data)
+        if act == "short":
+            f = SIM.fault
+            self._f.flush()
+            pos0 = self._f.tell()
+            mv = memoryview(data).cast("B") if not isinstance(data, (bytes, bytearray)) else data
+            p = _tear_len(f.get("tear"), len(mv))
+            self._f.write(mv[:p])
+            self._f.flush()
+            SIM.fired = {"kind": "short", "at": f["at"], "label": SIM.events[-1], "kept": p, "of": len(mv), "pos0": pos0}
+            raise OSError(f.get("errno", errno.ENOSPC), "simulated short write", self._path)
         if act == "corrupt":
             self._f.flush()
             p0 = self._f.tell()
@@ -252,6 +272,15 @@ class SimFile:
             note_extent(self._path, pos0, pos)
             if self._tear == "corrupt":
                 _flip_byte(self._path, pos0, pos)
+            elif self._tear == "short":
+                f = SIM.fault
+                n = pos - pos0
+                p = _tear_len(f.get("tear"), n)
+                os.ftruncate(self._f.fileno(), pos0 + p)
+                self._f.seek(pos0 + p)
+                self._tear = False
+                SIM.fired = {"kind": "short", "at": f["at"], "label": SIM.events[-1], "kept": p, "of": n, "pos0": pos0}
+                raise OSError(f.get("errno", errno.ENOSPC), "simulated short write", self._path)
             elif self._tear == "tear":
                 f = SIM.fault
                 n = pos - pos0
@@ -428,12 +457,28 @@ class _SimShutil:
                 b_.write(data[:p])
             SIM.fired = {"kind": "torn", "at": f["at"], "label": SIM.events[-1], "kept": p, "of": len(data), "note": "cross-directory move died mid-copy"}
             die(SIM.fired)
+        if act == "short":
+            _short_copy(src, dst, "cross-directory move failed mid-copy")
         return _real["move"](src, dst, *a, **kw)
 
     @staticmethod
     def copy(src, dst, *a, **kw):
-        event("copy", src, path2=dst)
+        act = event("copy", src, path2=dst)
+        if act == "short":
+            _short_copy(src, dst, "copy failed part-way")
         return _real["copy"](src, dst, *a, **kw)
+
+
+def _short_copy(src, dst, note):
+    f = SIM.fault
+    if os.path.isdir(dst):
+        dst = os.path.join(dst, os.path.basename(os.fspath(src)))
+    with _real_open(src, "rb") as a_, _real_open(dst, "wb") as b_:
+        data = a_.read()
+        p = _tear_len(f.get("tear"), len(data))
+        b_.write(data[:p])
+    SIM.fired = {"kind": "short", "at": f["at"], "label": SIM.events[-1], "kept": p, "of": len(data), "note": note}
+    raise OSError(f.get("errno", errno.ENOSPC), "simulated short copy", os.fspath(dst))
 
 
 _installed = [False]
